@@ -43,7 +43,7 @@ TYPE_NAME = {1: 'OPEN', 2: 'UPDATE', 3: 'NOTIFICATION', 4: 'KEEPALIVE', 5: 'ROUT
 TYPES_A = [0, 1, 2, 3, 4, 5, 6, 7, 252, 255]
 BYTE_VALUES = (0x00, 0x01, 0x7F, 0x80, 0xFF)
 PAIR_MAX_LEN = 48
-PAIR_SESSIONS = (0, 3)   # pairs run under ASN4 without ADD-PATH, and under 2-byte AS with ADD-PATH
+PAIR_SESSIONS = (0, 1, 2, 3)
 SEAM2_EVERY = 4     # quick tier: read_message on every 4th deviation of a seed (+ every one the direct decode flags)
 
 # sessions 0-3 == c02.SESSIONS; session 4 (extended message) carries the 65535-byte ladders only
